@@ -289,4 +289,6 @@ def run(chk: Check):
     rule_lookahead_cover(chk, ir)
     rule_path_literal_gate(chk)
     rule_path_literal_wrap(chk)
+    from .c08 import rule_l1
+    rule_l1(chk, ix)   # $NAME keys and words are token texts: a token's text is the source slice
     chk.floor("H2-placement", 7)
